@@ -15,6 +15,7 @@ import random
 from .. import ezspref as X
 from .. import vloop, ncpsim, appharness
 from ..runner import Acc
+from .. import logmode
 from ..contracts import install_status_contract
 
 PROPERTY = "C13"
@@ -64,7 +65,7 @@ def shards(tier, seed):
 
 
 def run_shard(desc) -> Acc:
-    logging.disable(logging.CRITICAL)
+    logmode.apply(desc)
     acc = Acc()
     install_status_contract(acc)
     V = desc["version"]
